@@ -533,6 +533,20 @@ func (w *World) callerEnvs(fn *ssa.Function, d int) []map[*ssa.Parameter]string 
 		return []map[*ssa.Parameter]string{nil}
 	}
 	cs := w.nodeCallers(fn)
+	if w.envRoot != nil {
+		// only the call chains that start at the root asked for
+		below := map[*ssa.Function]bool{}
+		for _, g := range w.withModuleCallees(w.envRoot, 3) {
+			below[g] = true
+		}
+		var keep []CallerSite
+		for _, c := range cs {
+			if below[c.Caller] {
+				keep = append(keep, c)
+			}
+		}
+		cs = keep
+	}
 	if len(cs) == 0 || len(cs) > 6 {
 		return []map[*ssa.Parameter]string{nil}
 	}
